@@ -826,13 +826,52 @@ func c08R10(p *Prog, r *Report) {
 				}
 				uses := false
 				if as, ok := fc.G.V[fa.V].Node.(*ast.AssignStmt); ok {
-					for _, rhs := range as.Rhs {
-						ast.Inspect(rhs, func(n ast.Node) bool {
-							if id, ok := n.(*ast.Ident); ok && data != nil && info.Uses[id] == data {
-								uses = true
+					// the remembered value mentions the written buffer — directly, or through locals
+					// with a single definition — and at the point where it is taken from the buffer,
+					// the buffer is the one that is written (same reaching definitions as at the
+					// write): a string view taken before a later append misses the appended bytes
+					sameBuf := func(at int) bool {
+						a, b := fc.ReachingDefs(at, data), fc.ReachingDefs(cs.V, data)
+						if len(a) != len(b) {
+							return false
+						}
+						in := map[int]bool{}
+						for _, d := range a {
+							in[d] = true
+						}
+						for _, d := range b {
+							if !in[d] {
+								return false
+							}
+						}
+						return true
+					}
+					var visit func(e ast.Expr, at int, depth int)
+					visit = func(e ast.Expr, at int, depth int) {
+						ast.Inspect(e, func(n ast.Node) bool {
+							id, ok := n.(*ast.Ident)
+							if !ok || data == nil {
+								return true
+							}
+							o := info.Uses[id]
+							if o == data {
+								if sameBuf(at) {
+									uses = true
+								}
+								return true
+							}
+							if o != nil && depth < 4 {
+								if rhs, _, dv, sole := fc.SoleDefRHS(o); sole {
+									if _, isVar := o.(*types.Var); isVar && !o.(*types.Var).IsField() {
+										visit(rhs, dv, depth+1)
+									}
+								}
 							}
 							return true
 						})
+					}
+					for _, rhs := range as.Rhs {
+						visit(rhs, fa.V, 0)
 					}
 				}
 				if !uses {
